@@ -87,6 +87,10 @@ func (c *FnCtx) siteOrdinal(in ssa.Instruction, short string) int {
 				cc = &y.Call
 			case *ssa.Go:
 				cc = &y.Call
+			case *ssa.MakeSlice:
+				if short == "builtin.make" {
+					n++
+				}
 			}
 			if cc == nil {
 				continue
